@@ -11,14 +11,24 @@
 //!
 //! Answer:
 //!   R=<OK|E<code>:<line>>;cb=<bytes given to the callback>,<callback calls>;nr=<read calls>;
-//!   ms=<largest buffer offered to read()>;T=<canonical text of the whole symbol table, see render_table>
+//!   ms=<largest buffer offered to read()>;ev=<hash of the event sequence>,<events>;
+//!   T=<canonical text of the whole symbol table, see render_table>
 //!   ;;cbok=<callback bytes are a prefix of the input>;W=<result of the whole-slice parse>;
 //!   eq=<chunked table == whole table, or both errors>
 //!   ;D=<result of parsing the input with every line of >= 163840 content bytes removed, or ->
 //!   ;deq=<that table == chunked table>
 //! The part before ";;" is what the Coq model predicts; the rest is for the property oracle.
+//! Event sequence: every read() contributes (1, out.len(), bytes returned), every callback (2, slice length),
+//! in the order in which they happen; the numbers are folded with h = (h ^ v) * 0x100000001b3 (mod 2^64)
+//! starting from 0xcbf29ce484222325 (C09/Driver.v: tr_step, mix).  out.len() = capacity - end of the circular
+//! buffer, so the sequence pins its capacity / position / end trajectory and the callback slices.
 use breakpad_symbols::{SymbolError, SymbolFile};
+use std::cell::Cell;
 use std::io::Read;
+
+pub fn mix(h: &Cell<u64>, v: u64) {
+    h.set((h.get() ^ v).wrapping_mul(0x100000001b3));
+}
 
 pub struct Case {
     pub data: Vec<u8>,
@@ -63,6 +73,17 @@ pub struct ChunkReader<'a> {
     si: usize,
     pub nreads: u64,
     pub maxspace: usize,
+    pub ev: &'a Cell<u64>,
+    pub nev: &'a Cell<u64>,
+}
+
+impl<'a> ChunkReader<'a> {
+    fn event(&self, space: usize, n: usize) {
+        mix(self.ev, 1);
+        mix(self.ev, space as u64);
+        mix(self.ev, n as u64);
+        self.nev.set(self.nev.get() + 1);
+    }
 }
 
 impl<'a> Read for ChunkReader<'a> {
@@ -71,6 +92,7 @@ impl<'a> Read for ChunkReader<'a> {
         self.maxspace = self.maxspace.max(out.len());
         let remaining = self.data.len() - self.pos;
         if out.is_empty() || remaining == 0 {
+            self.event(out.len(), 0);
             return Ok(0);
         }
         let chunk = if self.si < self.sched.len() {
@@ -83,6 +105,7 @@ impl<'a> Read for ChunkReader<'a> {
         let n = chunk.min(out.len()).min(remaining);
         out[..n].copy_from_slice(&self.data[self.pos..self.pos + n]);
         self.pos += n;
+        self.event(out.len(), n);
         Ok(n)
     }
 }
@@ -261,13 +284,18 @@ pub fn render_table(s: &SymbolFile) -> String {
 
 pub fn run(line: &str) -> String {
     let c = parse_case(line);
-    let mut rd = ChunkReader { data: &c.data, pos: 0, sched: &c.sched, si: 0, nreads: 0, maxspace: 0 };
+    let ev = Cell::new(0xcbf29ce484222325u64);
+    let nev = Cell::new(0u64);
+    let mut rd = ChunkReader { data: &c.data, pos: 0, sched: &c.sched, si: 0, nreads: 0, maxspace: 0, ev: &ev, nev: &nev };
     let mut cblen: usize = 0;
     let mut cbcalls: u64 = 0;
     let mut cbok = true;
     let data = &c.data;
     let res = SymbolFile::parse(&mut rd, |b: &[u8]| {
         cbcalls += 1;
+        mix(&ev, 2);
+        mix(&ev, b.len() as u64);
+        nev.set(nev.get() + 1);
         if cblen + b.len() > data.len() || &data[cblen..cblen + b.len()] != b {
             cbok = false;
         }
@@ -320,12 +348,14 @@ pub fn run(line: &str) -> String {
         ("-".to_string(), "-")
     };
     format!(
-        "R={};cb={},{};nr={};ms={};T={};;cbok={};W={};eq={};D={};deq={}",
+        "R={};cb={},{};nr={};ms={};ev={},{};T={};;cbok={};W={};eq={};D={};deq={}",
         class(&res),
         cblen,
         cbcalls,
         rd.nreads,
         rd.maxspace,
+        ev.get(),
+        nev.get(),
         t,
         if cbok { 1 } else { 0 },
         class(&whole),
